@@ -10,6 +10,8 @@ impl<T> VIter<T> {
         ensures forall|p: spec_fn(T) -> bool| (forall|x: T, b: bool| #[trigger] f.ensures((&x,), b) ==> b == p(x)) ==> r@ == #[trigger] self@.filter(p),
             // (also usable when the closure is not fully specified) nothing is invented, and only accepted elements are kept
             forall|i: int| 0 <= i < r@.len() ==> self@.contains(#[trigger] r@[i]) && f.ensures((&r@[i],), true),
+            // ... and the kept elements are a subsequence: positions strictly increase
+            is_subsequence(r@, self@),
     { unimplemented!() }
     #[verifier::external_body]
     pub fn collect(self) -> (r: Vec<T>) ensures r@ == self@ { unimplemented!() }
@@ -22,6 +24,10 @@ impl<T> VIter<T> {
                 && forall|j: int| 0 <= j < i ==> f.ensures((&#[trigger] self@[j],), false),
             r is None ==> forall|j: int| 0 <= j < self@.len() ==> f.ensures((&#[trigger] self@[j],), false),
     { unimplemented!() }
+}
+pub open spec fn is_subsequence<T>(r: Seq<T>, s: Seq<T>) -> bool {
+    exists|idx: Seq<int>| idx.len() == r.len() && (forall|i: int| 0 <= i < r.len() ==> 0 <= #[trigger] idx[i] < s.len() && r[i] == s[idx[i]])
+        && (forall|i: int, j: int| 0 <= i < j < r.len() ==> #[trigger] idx[i] < #[trigger] idx[j])
 }
 // a closure whose contract is `ensures r == e(x)` is a function: used to turn f.ensures into a predicate
 pub open spec fn closure_is_pred<T, F: Fn(&T) -> bool>(f: F, p: spec_fn(T) -> bool) -> bool {
